@@ -698,6 +698,9 @@ func (e *Engine) evalIdent(ctx *EvalCtx, name string) (Val, error) {
 				return Val{S: "(+ " + ctx.f.vals[p].S + " 1)", Sort: "Int", T: types.Typ[types.Int]}, nil
 			}
 		}
+		if v, ok := countingPhi(ctx.f, ctx.siteLoop.Header); ok {
+			return v, nil
+		}
 		return Val{}, fmt.Errorf("$k is only available in range-index loops")
 	}
 	if name == "$wm" {
@@ -710,6 +713,9 @@ func (e *Engine) evalIdent(ctx *EvalCtx, name string) (Val, error) {
 				if p, ok := in.(*ssa.Phi); ok && p.Comment == "rangeindex" {
 					return Val{S: "(+ " + ctx.f.vals[p].S + " 1)", Sort: "Int", T: types.Typ[types.Int]}, nil
 				}
+			}
+			if v, ok := countingPhi(ctx.f, ctx.loop.Header); ok {
+				return v, nil
 			}
 		}
 		return Val{}, fmt.Errorf("$k is only available in range-index loops")
@@ -2179,4 +2185,49 @@ func replaceSym(term, v, by string) string {
 		i++
 	}
 	return b.String()
+}
+
+// countingPhi: the loop counter of a canonical index loop `for i := 0; ...; i++` (a header phi of type int that starts at the
+// constant 0 and whose only other incoming value is itself + 1): it equals the number of completed iterations, i.e. what $k
+// denotes in the equivalent `for i := range s` loop. Lets contracts written with $k survive a range <-> index rewrite.
+func countingPhi(f *Frame, header *ssa.BasicBlock) (Val, bool) {
+	var found *ssa.Phi
+	for _, in := range header.Instrs {
+		p, ok := in.(*ssa.Phi)
+		if !ok {
+			break
+		}
+		if b, ok := p.Type().Underlying().(*types.Basic); !ok || b.Kind() != types.Int {
+			continue
+		}
+		zero, step := 0, 0
+		for _, e := range p.Edges {
+			if c, ok := e.(*ssa.Const); ok && c.Value != nil && c.Value.ExactString() == "0" {
+				zero++
+				continue
+			}
+			if bo, ok := e.(*ssa.BinOp); ok && bo.Op == token.ADD && bo.X == ssa.Value(p) {
+				if c, ok := bo.Y.(*ssa.Const); ok && c.Value != nil && c.Value.ExactString() == "1" {
+					step++
+					continue
+				}
+			}
+			zero, step = -1, -1
+			break
+		}
+		if zero == 1 && step >= 1 {
+			if found != nil {
+				return Val{}, false // ambiguous
+			}
+			found = p
+		}
+	}
+	if found == nil {
+		return Val{}, false
+	}
+	v, ok := f.vals[found]
+	if !ok {
+		return Val{}, false
+	}
+	return Val{S: v.S, Sort: "Int", T: types.Typ[types.Int]}, true
 }
